@@ -36,7 +36,10 @@ Proof.
     assert (ord = 0 \/ ord = 1 \/ ord = 2 \/ ord = 3 \/ ord = 4) as [->|[->|[->|[->| ->]]]] by lia; simpl; tauto.
 Qed.
 
-Lemma step_in_succs m s l : In (fst (step_ret_m cfg_now m s l)) (succs s).
+Lemma step_nz c m s l : step_ret_m c m (nz s) l = step_ret_m c m s l.
+Proof. destruct s, l. reflexivity. Qed.
+
+Lemma step_in_succs m s l : In (nz (fst (step_ret_m cfg_now m s l))) (succs s).
 Proof.
   destruct l as [lb ord]. rewrite ord_norm. unfold succs.
   apply in_flat_map. exists lb. split; [apply all_labs_complete|].
@@ -44,12 +47,14 @@ Proof.
   destruct m; [left | right; left]; reflexivity.
 Qed.
 
-Lemma V_step m s l : In s V_elems -> In (fst (step_ret_m cfg_now m s l)) V_elems.
+Lemma V_step m s l : In s V_elems -> In (nz (fst (step_ret_m cfg_now m s l))) V_elems.
 Proof.
-  intro H. apply memb_in.
+  intro H.
   pose proof closed_ok_true as C. unfold closed_ok in C.
   rewrite forallb_forall in C. specialize (C s H). rewrite forallb_forall in C.
-  apply C. apply step_in_succs.
+  specialize (C _ (step_in_succs m s l)). apply orb_true_iff in C as [C|C].
+  - apply state_eqb_eq in C. rewrite C. exact H.
+  - apply memb_in. exact C.
 Qed.
 
 Lemma fstep_fst n fs l : fst (step cfg_now n fs l) = fst (step_ret_m cfg_now (pos_after (fst fs) (snd fs) l <? n) (fst fs) l).
@@ -58,26 +63,27 @@ Proof.
   destruct (step_ret_m cfg_now (pos_after s p l <? n) s l) as [s' r]. reflexivity.
 Qed.
 
-Lemma reach_from n ls : forall fs, In (fst fs) V_elems -> In (fst (fold_left (step cfg_now n) ls fs)) V_elems.
+Lemma reach_from n ls : forall fs, In (nz (fst fs)) V_elems -> In (nz (fst (fold_left (step cfg_now n) ls fs))) V_elems.
 Proof.
   induction ls as [|l ls IH]; intros fs H; cbn [fold_left]; [exact H|].
-  apply IH. rewrite fstep_fst. apply V_step. exact H.
+  apply IH. rewrite fstep_fst. rewrite <- step_nz. apply V_step. exact H.
 Qed.
 
-(* the state of every reachable full state is one of the finitely many in V *)
-Theorem reach_in_V n ls : In (fst (run cfg_now n ls)) V_elems.
+(* the state of every reachable full state, minus the last step's notifications, is one of the finitely many in V *)
+Theorem reach_in_V n ls : In (nz (fst (run cfg_now n ls))) V_elems.
 Proof. apply reach_from. apply memb_in. exact init_in_V. Qed.
 
-Lemma V_forall (P : state -> bool) : forallb P V_elems = true -> forall n ls, P (fst (run cfg_now n ls)) = true.
-Proof. intros H n ls. rewrite forallb_forall in H. apply H. apply reach_in_V. Qed.
+Lemma V_forall (P : state -> bool) : (forall s, P (nz s) = P s) ->
+  forallb P V_elems = true -> forall n ls, P (fst (run cfg_now n ls)) = true.
+Proof. intros E H n ls. rewrite forallb_forall in H. rewrite <- E. apply H. apply reach_in_V. Qed.
 
 (* the same for one more step from a reachable state (properties of a step's notifications) *)
-Lemma V_forall_step (P : state -> lab -> state -> bool) :
+Lemma V_forall_step (P : state -> lab -> state -> bool) : (forall s lb s', P (nz s) lb s' = P s lb s') ->
   forallb (fun s => forallb (fun lb => forallb (fun ord => forallb (fun m =>
      P s lb (fst (step_ret_m cfg_now m s (lb, ord)))) [true; false]) (orders s)) all_labs) V_elems = true ->
   forall n ls l, P (fst (run cfg_now n ls)) (fst l) (fst (step cfg_now n (run cfg_now n ls) l)) = true.
 Proof.
-  intros H n ls [lb ord]. rewrite fstep_fst. rewrite ord_norm.
+  intros E H n ls [lb ord]. rewrite fstep_fst. rewrite <- step_nz. rewrite ord_norm. rewrite <- E.
   rewrite forallb_forall in H. specialize (H _ (reach_in_V n ls)).
   rewrite forallb_forall in H. specialize (H lb (all_labs_complete lb)).
   rewrite forallb_forall in H. specialize (H _ (eff_ord_in _ ord)).
@@ -168,10 +174,10 @@ Lemma step_V : forallb (fun s => forallb (fun lb => forallb (fun ord => forallb 
 Proof. vm_compute. reflexivity. Qed.
 
 Theorem c05_safety n ls : p_safety (fst (run cfg_now n ls)) = true.
-Proof. apply V_forall. exact safety_V. Qed.
+Proof. apply V_forall; [intros []; reflexivity | exact safety_V]. Qed.
 Theorem c05_retired n ls : p_retired (fst (run cfg_now n ls)) = true.
-Proof. apply V_forall. exact retired_V. Qed.
+Proof. apply V_forall; [intros []; reflexivity | exact retired_V]. Qed.
 Theorem c05_nostuck n ls : p_nostuck (fst (run cfg_now n ls)) = true.
-Proof. apply V_forall. exact nostuck_V. Qed.
+Proof. apply V_forall; [intros []; reflexivity | exact nostuck_V]. Qed.
 Theorem c05_step n ls l : p_step (fst (run cfg_now n ls)) (fst l) (fst (step cfg_now n (run cfg_now n ls) l)) = true.
-Proof. apply (V_forall_step p_step). exact step_V. Qed.
+Proof. apply (V_forall_step p_step); [intros [] ? ?; reflexivity | exact step_V]. Qed.
